@@ -29,6 +29,23 @@ def transpile(script: str) -> str:
     return emit(parse(script))
 
 
+def host_namespace_in_range(namespace) -> bool:
+    """No int of the script left the range a 32-bit (let alone AVR) int can hold; floats stay finite."""
+
+    for key, value in (namespace or {}).items():
+        if key.startswith("__"):
+            continue
+        values = value if isinstance(value, list) else [value]
+        for v in values:
+            if isinstance(v, bool):
+                continue
+            if isinstance(v, int) and abs(v) > 1000000:
+                return False
+            if isinstance(v, float) and (v != v or abs(v) > 1e9):
+                return False
+    return True
+
+
 def host_values_in_range(trace) -> bool:
     for obs in trace.channels.get("ser", []):
         for tok in _NUM.findall(str(obs.value)):
@@ -101,7 +118,7 @@ class ScriptEngine(Engine):
             if h.error is not None:
                 probes["host_error"] = probes.get("host_error", 0) + 1
                 continue
-            if not host_values_in_range(h.trace):
+            if not host_values_in_range(h.trace) or not host_namespace_in_range(h.recorder.namespace):
                 probes["out_of_range"] = probes.get("out_of_range", 0) + 1
                 continue
             h.trace.live_samples = list(h.recorder.live_samples)
